@@ -403,7 +403,13 @@ class FormulTranslator:
         b = [s for s in fn.body if not is_doc(s)]
         if len(b) != 3:
             self.fail(fn, 'unexpected body')
-        expect(b[0], 'current = Itype(self.kind)(0)')
+        # initialisation of the accumulated branch current: the zero of the analysis kind, either directly or,
+        # for a phasor kind (self.kind is the angular frequency), as the zero phasor of that frequency.
+        # Both are the additive zero of the accumulation: nothing changes in the model.
+        zero_ok = ('current = Itype(self.kind)(0)',
+                   'if isinstance(self.kind, str):\n    current = Itype(self.kind)(0)\nelse:\n    current = Itype(self.kind)(0, omega=self.kind)')
+        if src(b[0]) not in zero_ok:
+            self.fail(b[0], 'expected the accumulated current to start from the zero of the analysis kind')
         expect(b[2], 'return current')
         lp = b[1]
         if not (isinstance(lp, ast.For) and src(lp.target) == '(n, loop2)' and src(lp.iter) == 'enumerate(loops)' and not lp.orelse and len(lp.body) == 4):
